@@ -18,6 +18,17 @@ CLAIMS.update({
              text="Exact-arithmetic conservation of every linear invariant by the forcing kernel for all mechanisms; the rounded form over whole solves (both integrators, all parameter sets, all layouts) is measured against a tolerance.",
              note=TB + " Partial: conservation through the linear solves and stage combinations is measured, and proved only at the level of the forcing (w.f(y) = 0)."),
 })
+CLAIMS.update({
+ "C02": dict(category="proof", technique="Lean 4 theorems (Jacobian kernel = minus the formal partial derivative of the mass-action forcing, incl. multiplicities via MvPolynomial.pderiv; pattern completeness; untouched slots; cursor decode) composed with the C19 rank theorems + bit-exact harness + exact-rational oracle",
+             text="For every mechanism/name map/state the model's SubtractJacobianTerms writes -d f_i/d y_j at every declared element (CSR or CSC, any L), every structurally non-zero derivative is in NonZeroJacobianElements, and slots no reaction touches are unchanged. The C++ kernels (standard and vector orderings, partial groups) are compared bit-for-bit with the model and with the exact derivative.",
+             note=TB + " The vector (L-lane) C++ Jacobian kernel is tied to the per-cell model by execution, not by a lane theorem."),
+ "C16": dict(category="other", technique="Lean 4 schedule-independence theorem over an interleaving model whose premise (entry points write only the caller's State) is validated by ThreadSanitizer runs with 2..16 threads, bitwise serial/parallel comparison and a source scan",
+             text="Every interleaving gives each thread its serial result in the model; for the C++ this rests on the entry points not writing the shared solver, which is checked by execution under TSan and by scanning the headers for shared mutable state, not proved. Partial: the C++ memory model and scheduler are outside the model.",
+             note=TB + " TSan only sees the schedules that occur in the runs."),
+ "C18": dict(category="other", technique="Lean 4 decision-logic theorems for the three JIT cell-count guards + in-process differential execution of LLVM-JIT-built solvers against the CPU vector solvers (bit-exact) for L=1..4",
+             text="Wrong cell counts are provably rejected by the guards as modelled; observational equivalence of generated code and CPU kernels is established by execution on seeded random mechanisms, all five parameter sets, L=1..4. Partial: no theorem about the generated programs; LLVM is trusted.",
+             note=TB + " Requires llvm-config-14 and the LLVM 14 libraries present in this image."),
+})
 NOT_APPLICABLE = {}
 _ALL = ["C%02d" % i for i in range(1, 21)]
 for _p in _ALL:
